@@ -290,9 +290,13 @@ class Replacer:
 
     def __call__(self, uri):
         scheme, location, path, query, fragment = urllib.parse.urlsplit(uri)
-        if scheme or not (location or path):
+        if scheme or not (location or path or query):
             # keep anything absolute (and references to the document itself)
             return uri
+        if not (location or path):
+            # "?query": the imported sheet itself with another query
+            base = urllib.parse.urlsplit(self.href)
+            return urllib.parse.urlunsplit(base[:3] + (query, fragment))
 
         base_scheme, base_location = urllib.parse.urlsplit(self.href)[:2]
         if base_scheme or base_location:
@@ -303,8 +307,14 @@ class Replacer:
             return uri
 
         combined = posixpath.normpath(posixpath.join(self.base, path))
-        if path.endswith('/'):
+        if (
+            path.endswith('/') or posixpath.basename(path) in ('.', '..')
+        ) and not combined.endswith('/'):
+            # still a directory
             combined += '/'
+        if ':' in combined.split('/')[0]:
+            # would be read as a scheme
+            combined = './' + combined
         return urllib.parse.urlunsplit(('', '', combined, query, fragment))
 
     @staticmethod
@@ -382,7 +392,12 @@ def _resolve_import(rule, target):
         return
 
     # add all rules of @import to current sheet
-    target.add(css.CSSComment(cssText='/* START @import "%s" */' % rule.href))
+    target.add(
+        css.CSSComment(
+            # (the href must not end the comment)
+            cssText='/* START @import "%s" */' % rule.href.replace('*/', '* /')
+        )
+    )
 
     try:
         # nested imports
